@@ -87,7 +87,7 @@ def setup(ctx):
         def wrapped(self, *args, _orig=orig, **kwargs):
             # signature-agnostic: the tree under test may have added parameters
             rec = _st.get("rec")
-            if rec is None or getattr(self, "_dsim_role", None) != "test":
+            if rec is None or getattr(self, "_dsim_role", None) not in ("test", "ref"):
                 return _orig(self, *args, **kwargs)
             token_sequences = kwargs.get("token_sequences", args[0] if args else ())
             _tls.events = []
@@ -116,17 +116,23 @@ def setup(ctx):
     if ctx.interp:
         pr = _st["probes"]
         # storage seam: what goes in must come out
-        for k in KINDS:
-            m = importlib.import_module("vectorizers." + KERNEL_MODULES[k])
-            orig = m.coo_append
+        # every name bound to coo_utils.coo_append -- in coo_utils itself and in the kernel modules, whatever they call
+        # it -- is replaced by the recorder.  A tree that appends through some other function is not an error of the
+        # tree: the log is validated against the reference execution of every run (see run()) and the event-log
+        # oracles are switched off for runs in which it is not a complete record.
+        orig_append = cu.coo_append
 
-            def logged(coo, tup, _orig=orig):
-                ev = getattr(_tls, "events", None)
-                if ev is not None:
-                    ev.append((int(tup[0]), int(tup[1]), float(tup[2])))
-                return _orig(coo, tup)
+        def logged(coo, tup, _orig=orig_append):
+            ev = getattr(_tls, "events", None)
+            if ev is not None:
+                ev.append((int(tup[0]), int(tup[1]), float(tup[2])))
+            return _orig(coo, tup)
 
-            m.coo_append = logged
+        mods = [cu] + [importlib.import_module("vectorizers." + KERNEL_MODULES[k]) for k in KINDS]
+        for m in mods:
+            for name, val in list(vars(m).items()):
+                if val is orig_append:
+                    setattr(m, name, logged)
         for name in ("coo_sum_duplicates", "merge_all_sum_duplicates", "coo_increase_mem"):
             orig = getattr(cu, name)
 
@@ -437,6 +443,32 @@ def _public(spec):
     return {k: v for k, v in spec.items() if not k.startswith("_")}
 
 
+def _task_dicts(t):
+    """(appended mass per cell, returned mass per cell or None when the task's result is not a matrix)."""
+    agg = {}
+    for r, c, v in t["events"]:
+        agg[(r, c)] = agg.get((r, c), 0.0) + v
+    got = t["result"]
+    if scipy.sparse.issparse(got):
+        g = got.tocoo()
+        gd = {}
+        for r, c, v in zip(g.row.tolist(), g.col.tolist(), g.data.tolist()):
+            gd[(r, c)] = gd.get((r, c), 0.0) + v
+    elif isinstance(got, (int, float)) and got == 0:
+        gd = {}
+    else:
+        gd = None
+    return agg, gd
+
+
+def _log_matches(tasks, exact):
+    for t in tasks:
+        agg, gd = _task_dicts(t)
+        if gd is not None and _dict_diff(agg, gd, exact):
+            return False
+    return True
+
+
 # --------------------------------------------------------------------------- run
 def run(tape, ctx):
     import dask
@@ -453,8 +485,18 @@ def run(tape, ctx):
     # ---- reference configuration (no simulator)
     if ctx.interp:
         cu.COO_QUICKSORT_LIMIT = 1 << 16
-    _st["rec"] = None
-    ref = _execute(spec, reference=True)
+    ref_rec = {"tasks": [], "chunks": []}
+    _st["rec"] = ref_rec if ctx.interp else None
+    try:
+        ref = _execute(spec, reference=True)
+    finally:
+        _st["rec"] = None
+    # is the event log a complete record of what this tree appends for this spec?  In the reference configuration
+    # (one chunk, no compaction, no growth) a build must return exactly what the recorder saw; if it does not, the
+    # tree appends through a path the recorder does not see and the event-log oracles say nothing about it.
+    log_ok = ctx.interp and ref[0] == "ok" and _log_matches(ref_rec["tasks"], exact)
+    if ctx.interp and ref[0] == "ok" and not log_ok:
+        probes.hit("event-log-unobservable")
     if ref[0] == "ok" and spec["epsilon"] > 0:
         # threshold stability: if moving epsilon by +-1e-4 relative changes the reference, some value sits on
         # the threshold and float32 summation order may legitimately flip it -> not comparable
@@ -543,23 +585,10 @@ def run(tape, ctx):
             raise Violation(f"C04|{tag}|chunks-not-a-partition|{kind}", f"{n} documents chunked as {ch}", desc)
 
     # ---- storage seam (interp): every build task returns exactly what it appended
-    if ctx.interp:
-        shape = out[1][-1].shape
-        total = {}
+    if ctx.interp and log_ok:
+        probes.hit("event-log-checked")
         for ti, t in enumerate(rec["tasks"]):
-            agg = {}
-            for r, c, v in t["events"]:
-                agg[(r, c)] = agg.get((r, c), 0.0) + v
-            got = t["result"]
-            if scipy.sparse.issparse(got):
-                g = got.tocoo()
-                gd = {}
-                for r, c, v in zip(g.row.tolist(), g.col.tolist(), g.data.tolist()):
-                    gd[(r, c)] = gd.get((r, c), 0.0) + v
-            elif isinstance(got, (int, float)) and got == 0:
-                gd = {}
-            else:
-                gd = None
+            agg, gd = _task_dicts(t)
             if gd is not None:
                 msg = _dict_diff(agg, gd, exact)
                 if msg:
